@@ -77,8 +77,10 @@ def _foreign_bytes(case):
         cols = []
         for c, node in zip(case["cols"], plan["schema"]):
             pt, nt = KIND_META.get(c["kind"], ("object", "object"))
-            if kind == "pandas_nullable" and c["kind"] in ("i8", "i16", "i32", "i64", "u8", "u16", "u32", "u64", "bool") and \
+            has_null = any(v is None for rg in plan["row_groups"] for v in rg["data"].get(c["name"], []))
+            if (kind == "pandas_nullable" or has_null) and c["kind"] in ("i8", "i16", "i32", "i64", "u8", "u16", "u32", "u64", "bool") and \
                     node["repetition"] == "OPTIONAL":
+                # (an int/bool column that holds nulls can only have come from a pandas extension dtype)
                 # arrow records the pandas extension dtype in numpy_type
                 nt = {"bool": "boolean"}.get(c["kind"], ("UInt" if c["kind"][0] == "u" else "Int") + c["kind"][1:])
             cols.append({"name": c["name"], "field_name": c["name"], "pandas_type": pt, "numpy_type": nt, "metadata": None})
@@ -158,8 +160,13 @@ def run_case(case):
             kw["dtypes"] = dict(claimed_dtypes)
         try:
             out = pf.to_pandas(**kw)
+        except (NotImplementedError, AssertionError) as e:
+            return discard("read_refused:" + exc_sig(e), labels)
         except Exception as e:
-            return discard("read_raised(C01/C03):" + exc_sig(e), labels)
+            if src == "partitioned" and case["opts"].get("file_scheme") == "drill" and "is not in list" in str(e):
+                return discard("drill labels mixing text and numbers (recorded finding C08-drill-mixed-text)", labels)
+            # the handle answered every metadata question, then cannot produce the frame it described
+            return viol("read_raised_after_prediction|%s|%s" % (src, exc_sig(e)), exc_detail(e), labels=labels)
         optsig = "+".join(sorted(k for k in kw)) or "plain"
         # ---- columns
         got_cols = [str(c) for c in out.columns]
@@ -211,6 +218,17 @@ def run_case(case):
             return discard("iter_raised:" + exc_sig(e), labels)
         if lens != [n for n in claimed_rg if n]:
             return viol("rg_num_rows|%s" % src, "row groups claim %r rows, iteration yields %r" % (claimed_rg, lens), labels=labels)
+        # a handle restricted to some row groups answers for those row groups only
+        if len(claimed_rg) >= 2:
+            i = rd["colpick"][0] % len(claimed_rg)
+            try:
+                sub = pf[i]
+                sc, si, sl = sub.count(), sub.info.get("rows"), len(sub.to_pandas())
+            except Exception as e:
+                return discard("slice_read_raised:" + exc_sig(e), labels)
+            if not (sc == si == sl == claimed_rg[i]):
+                return viol("slice_count|%s" % src, "pf[%d]: count()=%r info.rows=%r, rows read %d, row group claims %d" % (i, sc, si, sl, claimed_rg[i]), labels=labels)
+            labels.append("slice_checked")
         # partition values known from metadata cover the labels read
         for c, vals in claimed_cats.items():
             if c in got_cols and len(out):
